@@ -202,6 +202,10 @@ func (x *X) diffOracle(prop string, op Op, o, ref *Outcome, data []store.Series)
 		if op.QLookbackMs > 0 {
 			k += "|qlookback"
 		}
+		if op.Eng.Optim != "" && op.Eng.Optim != "none" {
+			// the minimiser removes the optimizers whenever the violation survives without them
+			k += "|optim=" + op.Eng.Optim
+		}
 		return k
 	}
 	if ref.ClientPanic != "" {
